@@ -192,7 +192,7 @@ pub fn run(ctx: &mut Ctx) {
     ctx.rule = "cases are (curve, progress values): curves from the C16/C17 generators (1..10 control points, all coordinate classes incl. duplicates / collinear / zero-length, natural or length-adjusted incl. the trailing-duplicate extra-length case) x ~70 progress values (0, 1, negatives, >1, +-inf, subnormals, 1-ulp neighbours of 0 and 1, 33 even steps, every lengths[i]/dist, random). Oracle: position_at(0/1) = first/last point, clamping is exact, progress_to_dist = clamp(p) x dist, position never moves farther than the arc length between two progress values (eps = 1e-3 x scale), position at each vertex's cumulative length is the vertex, idx_of_dist / interpolate_vertices agree with a linear scan, BorrowedCurve agrees with Curve. NaN progress is outside the stated domain. Non-trivial = curve with >= 3 vertices and dist > 0; distinct by hash(mode, points, L).".into();
     ctx.assumptions.push("curves with non-finite vertices (known finding of C16) are skipped here and counted as excluded".into());
     crate::props::replay_regress_generic(ctx, replay);
-    let cases = ctx.tier.pick(60_000u64, 1_200_000u64);
+    let cases = ctx.tier.pick(200_000u64, 2_000_000u64);
     ctx.pbt("c19-random", cases, 220, |t, st| {
         let (mode, pts, l, extra) = gen_case(t);
         st.eval();
